@@ -277,6 +277,15 @@ func (fr *Frame) libModel(key string, fn *ssa.Function, c *ssa.CallCommon, args 
 		a, _ := lf(0)
 		vc.declareFun("err_notexist", []Sort{SInt}, SBool)
 		return And(Not(Eq(a, I(0))), app(SBool, "err_notexist", a)), true
+	case "filepath.Dir":
+		// deterministic function of the path: shared with contracts as path_dir
+		a, _ := lf(0)
+		if !vc.eng.definedInPrelude("path_dir") {
+			vc.declareFun("path_dir", []Sort{SInt}, SInt)
+		}
+		r := vc.fresh("dir", SInt)
+		vc.assert(And(Eq(r, app(SInt, "path_dir", a)), Le(I(0), r)))
+		return r, true
 	case "context.Cause":
 		// every call site in scope follows <-ctx.Done() or ctx.Err() != nil, where Cause is non-nil
 		r := vc.fresh("cause", SInt)
